@@ -28,9 +28,11 @@ LEVEL_TEXT = {
             "note": "Trusted: reference HPWL (DEF transforms). Known finding recorded in known_findings.json.", "technique": _T},
     "C07": {"text": "Exploration, sanitizer-decided: the process is the oracle (ASan, UBSan incl. float-cast-overflow, assert, CPU budget) in "
                     "assertion-enabled and NDEBUG builds.", "note": "Non-termination decided as bounded progress (CPU budget, solo re-run at 10x).",
-            "technique": "runtime monitoring: ASan+UBSan+assertions on degenerate / large-magnitude / parameter-fuzz workloads, fork isolation, CPU-time watchdog"},
-    "C10": {"text": "Fault enumeration: every callback index of every generated run is used as a throw point (two exception types), "
-                    "plus infeasible legalization and rejected parameters; setters probed inside every callback and after every ended call.",
+            "technique": "runtime monitoring: ASan+UBSan+assertions on degenerate / large-magnitude / blocked / 20k-250k-cell / parameter-fuzz workloads, fork isolation, CPU-time watchdog"},
+    "C10": {"text": "Fault enumeration: every callback index of every generated run is used as a throw point (two exception types, and a third "
+                    "kind that first re-sends sizes and net weights), plus infeasible legalization and rejected parameters; setters probed inside "
+                    "every callback and, on the object itself, after every ended call; the follow-up call is compared with a pristine twin; "
+                    "copies taken in a callback, other circuits placed from a callback and nested calls on the busy circuit are probed.",
             "note": "Fault points = callback invocations + library-raised errors; exhaustive per instance, instances sampled.",
             "technique": "runtime monitoring with exhaustive fault injection at callback boundaries"},
     "C11": {"text": "Exploration: legal placements from two sources re-legalized; any movement outside the recorded parameter region is a violation.",
@@ -40,8 +42,9 @@ LEVEL_TEXT = {
             "note": "Tolerance comparisons (rounding + float ulp) derived in DESIGN.md; one degenerate situation is a recorded known finding.",
             "technique": _T + " incl. -fsanitize=float-cast-overflow; callback-state monitors"},
     "C08": {"text": "Exploration of schedules: hook-forced completion orders of the two concurrent solves (both orders observed per run, logged), "
-                    "single-core and all-core affinity, random delays, plus repeated/copied/interleaved runs for all stages, plus the same "
-                    "workload under ThreadSanitizer.",
+                    "single-core and all-core affinity, random delays, plus repeated/copied/interleaved runs for all stages, re-evaluation in a "
+                    "freshly started process, call histories on one object compared with circuits rebuilt from the visible data, plus the "
+                    "same workload under ThreadSanitizer.",
             "note": "Schedule coverage = the two completion orders per step and random begin delays, not all instruction interleavings; TSan judges the executions produced.",
             "technique": "runtime monitoring: schedule forcing through a guarded hook + bitwise comparison of results + ThreadSanitizer"},
     "C09": {"text": "Exploration: reference HPWL (own DEF transform table) vs Circuit::hpwl and per-pin transforms; IncrNetModel vs from-scratch "
